@@ -67,10 +67,40 @@ func extractLexTables(c *core.Ctx, R, pkgRel string) *lexTables {
 		}
 		t.opening[n] = b
 	}
+	// the pair predicates as tables: a chain of comparisons is folded on SSA; a lookup in a constant
+	// table of the package is evaluated on the typed AST
+	astBool := func(name string, a1, a2 int64) (bool, bool) {
+		d := c.P.FindDecl(pkgRel + "." + name)
+		if d == nil || d.Decl.Body == nil || d.Decl.Type.Params == nil {
+			return false, false
+		}
+		e := &miniEval{pk: d.Pkg, env: map[string]int64{"nil": 0}, ctx: c}
+		vals := []int64{a1, a2}
+		k := 0
+		for _, fl := range d.Decl.Type.Params.List {
+			for _, nm := range fl.Names {
+				if k < 2 {
+					e.env[nm.Name] = vals[k]
+				}
+				k++
+			}
+		}
+		st, rets := e.run(d.Decl.Body.List)
+		if e.unknown != "" || st != miniReturn || len(rets) != 1 {
+			return false, false
+		}
+		return rets[0] != 0, true
+	}
 	for v1, n1 := range t.names {
 		for v2, n2 := range t.names {
 			b1, ok1 := boolOf(nsp, v1, v2)
 			b2, ok2 := boolOf(sp, v1, v2)
+			if !ok1 {
+				b1, ok1 = astBool("isNonScalarPair", v1, v2)
+			}
+			if !ok2 {
+				b2, ok2 = astBool("isScalarPair", v1, v2)
+			}
 			if !ok1 || !ok2 {
 				c.Bad(R, pkgRel+".pairs:"+n1+"/"+n2, c.P.Pos(sp.Pos()), "pair tables", "undecided: pair predicates are not constant functions of their arguments")
 				return nil
